@@ -442,8 +442,11 @@ def _reparse_model(strand, layout, s0, a, b, f0, ids, bt, iso, fasta, fm=0):
     gt, tt = _BT[bt]
     gt = Biotype[gt] if gt else None
     tt = Biotype[tt] if tt else None
-    tkw = dict(transcript_id="tx1" if ids else None, transcript_symbol="ts1" if ids == 1 else None)
-    gkw = dict(gene_id="gid" if ids else None, gene_symbol="gs" if ids == 1 else None, locus_tag="lt" if ids == 2 else None)
+    # identifier patterns: 0 none; 1 all ids and symbols; 2 ids + locus tag; 3 FIRST isoform with id, second without, locus tag given; 4 first isoform
+    # without id, second with, no locus tag (mixed patterns: an id-less isoform must not inherit anything from its sibling)
+    tkw = dict(transcript_id="tx1" if ids in (1, 2, 3) else None, transcript_symbol="ts1" if ids == 1 else None)
+    tid2 = "tx2" if ids in (1, 2, 4) else None
+    gkw = dict(gene_id="gid" if ids else None, gene_symbol="gs" if ids == 1 else None, locus_tag="lt" if ids in (2, 3) else None)
     cds = None
     if a >= 0:
         # CDS = transcript-relative window [a, b) (5'->3' on the transcript's strand) mapped to one genomic block per exon touched
@@ -469,11 +472,11 @@ def _reparse_model(strand, layout, s0, a, b, f0, ids, bt, iso, fasta, fm=0):
                             parent_or_seq_chunk_parent=par, **tkw)
     txs = [t1]
     if iso == 1:  # non-coding isoform on the first exon
-        txs.append(TranscriptInterval([exons[0][0]], [exons[0][1]], strand, sequence_name="chr1", transcript_type=tt, transcript_id="tx2" if ids else None,
+        txs.append(TranscriptInterval([exons[0][0]], [exons[0][1]], strand, sequence_name="chr1", transcript_type=tt, transcript_id=tid2,
                                       qualifiers={"tq2": ["w"]}, parent_or_seq_chunk_parent=par))
     elif iso == 2:  # coding isoform spanning the exons' hull, CDS = whole transcript, frame 0
         txs.append(TranscriptInterval([exons[0][0]], [exons[-1][1]], strand, [exons[0][0]], [exons[-1][1]], [CDSFrame.ZERO], sequence_name="chr1",
-                                      transcript_type=tt, transcript_id="tx2" if ids else None, parent_or_seq_chunk_parent=par))
+                                      transcript_type=tt, transcript_id=tid2, parent_or_seq_chunk_parent=par))
     gene = GeneInterval(txs, sequence_name="chr1", gene_type=gt, qualifiers={"gq": ["v%1"], "idx": ["7"]}, parent_or_seq_chunk_parent=par, **gkw)
     coll = AnnotationCollection(genes=[gene], sequence_name="chr1", parent_or_seq_chunk_parent=par)
     return coll, gene, txs
@@ -504,9 +507,12 @@ def _models_survive(coll, parsed, fasta, check_tt=True):
         if len(t0s) != len(t1s):
             return False
         for t0, t1 in zip(t0s, t1s):
-            for k in ("exon_starts", "exon_ends", "strand", "cds_starts", "cds_ends", "cds_frames", "transcript_id", "protein_id", "product"):
+            for k in ("exon_starts", "exon_ends", "strand", "cds_starts", "cds_ends", "cds_frames", "protein_id", "product"):
                 if t0[k] != t1[k]:
                     return False
+            # a transcript id survives; a transcript without one comes back without, or (documented fallback) with its gene's locus tag
+            if t1["transcript_id"] != (t0["transcript_id"] if t0["transcript_id"] is not None else g1["locus_tag"]):
+                return False
             if t0["transcript_symbol"] is not None and t0["transcript_symbol"] != t1["transcript_symbol"]:
                 return False
             if check_tt and t0["transcript_type"] is not None and t0["transcript_type"] != t1["transcript_type"]:
@@ -563,7 +569,7 @@ def reparse_fn(strand, layout, iso, fasta, literal=False, generations=3):
 
     def pre(s0, a, b, f0, fm, ids, bt):
         return 0 <= s0 and s0 <= 1 and ((a == -1 and b == -1 and f0 == 0 and fm == 0) or (0 <= a and a < b and b <= L)) and 0 <= f0 and f0 <= 2 \
-            and 0 <= fm and fm <= 2 and 0 <= ids and ids <= 2 and 0 <= bt and bt < len(_BT)
+            and 0 <= fm and fm <= 2 and 0 <= ids and ids <= 4 and 0 <= bt and bt < len(_BT)
 
     return fn, pre
 
@@ -655,7 +661,7 @@ def obligations(tier):
             continue
         out.append(Obl("reparse_attrs_" + tag, fn, P7, pre_attrs, budget=300, cost=10, consts=dict(BT=_BT),
                        desc="as reparse_struct, gene ATTRIBUTES: gene/transcript ids, symbols, locus tag, biotypes, protein id, product and qualifiers survive",
-                       bounds="3 identifier patterns x %d gene/transcript biotype patterns x {non-coding, one CDS window} (realised)" % len(_BT),
+                       bounds="5 identifier patterns (incl. isoforms with and without transcript id in one gene) x %d gene/transcript biotype patterns x {non-coding, one CDS window} (realised)" % len(_BT),
                        examples=[dict(s0=1, a=1, b=L - 1, f0=1, fm=0, ids=2, bt=2), dict(s0=1, a=-1, b=-1, f0=0, fm=0, ids=1, bt=1)]))
     fn, pre = reparse_fn(PLUS, "e2", 0, False, literal=True)
     out.append(Obl("reexport_reproduces_file_literal", fn, P7,
